@@ -180,15 +180,20 @@ def specIncrByFloat (env : Env) (ks : KS) : List Bytes → Reply × KS
 | [_, k, _d] =>
   match env.fl 2 with
   | none => (errFloat, ks)
-  | some _ =>
+  | some bits =>
     match ks.str env.now k with
     | some none => (wrongType, ks)
     | old =>
       let curOk := match old.bind id with | none => true | some b => looksDecimal b
       if !curOk then (errFloat, ks)
+      else if flExp bits == 2047 then (.err (ofStr "ERR increment would produce NaN or Infinity"), ks)
       else match env.obs with
-        | some (.bulk (some r)) => (bulk r, ks.setVal env.now k (.str r))
-        | _ => (bulk [], ks)
+        | some (.bulk (some r)) =>
+          if looksDecimal r then (bulk r, ks.setVal env.now k (.str r)) else (rejectObs env.obs "INCRBYFLOAT result is not a finite decimal", ks)
+        | some (.err e) =>
+          let curHuge := match old.bind id with | none => false | some b => hugeDecimal b
+          if (flExp bits ≥ 2045 || curHuge) && !isWrongType e then (.err e, ks) else (rejectObs env.obs "INCRBYFLOAT must succeed", ks)
+        | _ => (rejectObs env.obs "INCRBYFLOAT answers a bulk string", ks)
 | _ => (errArgs, ks)
 
 def specMGet (env : Env) (ks : KS) : List Bytes → Reply × KS
@@ -1742,27 +1747,58 @@ theorem sim_incrbyfloat (env : Env) (db : Db) (ks : KS) (args : List Bytes) (h :
     | none => exact ⟨rfl, h⟩
     | some x =>
       simp only [rel_str h]
-      have fin : ∀ c : Bool, Sim env.now
+      have fin : ∀ (c : Bool) (hg' : Bool), Sim env.now
           (if (!c) = true then (errFloat, (checkTTL db env.now k).1)
+           else if (flExp x == 2047) = true then (Reply.err (ofStr "ERR increment would produce NaN or Infinity"), (checkTTL db env.now k).1)
            else match env.obs with
-             | some (.bulk (some r)) => (bulk r, (checkTTL db env.now k).1.setVal k (.str r))
-             | _ => (bulk [], (checkTTL db env.now k).1))
+             | some (.bulk (some r)) =>
+               if looksDecimal r = true then (bulk r, (checkTTL db env.now k).1.setVal k (.str r))
+               else (rejectObs env.obs "INCRBYFLOAT result is not a finite decimal", (checkTTL db env.now k).1)
+             | some (.err e) =>
+               if ((decide (flExp x ≥ 2045) || hg') && !isWrongType e) = true then (Reply.err e, (checkTTL db env.now k).1)
+               else (rejectObs env.obs "INCRBYFLOAT must succeed", (checkTTL db env.now k).1)
+             | _ => (rejectObs env.obs "INCRBYFLOAT answers a bulk string", (checkTTL db env.now k).1))
           (if (!c) = true then (errFloat, ks)
+           else if (flExp x == 2047) = true then (Reply.err (ofStr "ERR increment would produce NaN or Infinity"), ks)
            else match env.obs with
-             | some (.bulk (some r)) => (bulk r, ks.setVal env.now k (.str r))
-             | _ => (bulk [], ks)) := by
-        intro c
-        split
-        · exact ⟨rfl, hc⟩
-        · split
-          · exact ⟨rfl, rel_setVal hc hg _⟩
-          · exact ⟨rfl, hc⟩
+             | some (.bulk (some r)) =>
+               if looksDecimal r = true then (bulk r, ks.setVal env.now k (.str r))
+               else (rejectObs env.obs "INCRBYFLOAT result is not a finite decimal", ks)
+             | some (.err e) =>
+               if ((decide (flExp x ≥ 2045) || hg') && !isWrongType e) = true then (Reply.err e, ks)
+               else (rejectObs env.obs "INCRBYFLOAT must succeed", ks)
+             | _ => (rejectObs env.obs "INCRBYFLOAT answers a bulk string", ks)) := by
+        intro c hg'
+        by_cases h1 : (!c) = true
+        · simp only [h1, if_true]; exact ⟨rfl, hc⟩
+        · simp only [h1, if_false]
+          by_cases h2 : (flExp x == 2047) = true
+          · simp only [h2, if_true]; exact ⟨rfl, hc⟩
+          · simp only [h2, if_false]
+            cases env.obs with
+            | none => exact ⟨rfl, hc⟩
+            | some r =>
+              cases r with
+              | bulk o =>
+                cases o with
+                | none => exact ⟨rfl, hc⟩
+                | some r =>
+                  by_cases h3 : looksDecimal r = true
+                  · simp only [h3, if_true]; exact ⟨rfl, rel_setVal hc hg _⟩
+                  · simp only [h3, if_false]; exact ⟨rfl, hc⟩
+              | err e =>
+                by_cases h4 : ((decide (flExp x ≥ 2045) || hg') && !isWrongType e) = true
+                · simp only [h4, if_true]; exact ⟨rfl, hc⟩
+                · simp only [h4, if_false]; exact ⟨rfl, hc⟩
+              | simple _ => exact ⟨rfl, hc⟩
+              | int _ => exact ⟨rfl, hc⟩
+              | arr _ => exact ⟨rfl, hc⟩
       cases ks.str env.now k with
-      | none => exact fin true
+      | none => exact fin true false
       | some o =>
         cases o with
         | none => exact ⟨rfl, hc⟩
-        | some b => exact fin (looksDecimal b)
+        | some b => exact fin (looksDecimal b) (hugeDecimal b)
   | [] | [_] | [_, _] | _ :: _ :: _ :: _ :: _ => exact ⟨rfl, h⟩
 
 theorem sim_setnx (env : Env) (db : Db) (ks : KS) (args : List Bytes) (h : Rel db env.now ks) :
